@@ -224,7 +224,9 @@ spam:
 	}
 }
 
-func (sb *sbox) boot(k *boxKernel) {
+// build constructs one speaker instance (what newController does, with the recording BGP backend and the
+// goroutine-free announcer).
+func (sb *sbox) build() {
 	logger := log.NewNopLogger()
 	l2, err := layer2.VerifNewAnnounce(logger, "eth0", "eth1")
 	if err != nil {
@@ -262,6 +264,11 @@ func (sb *sbox) boot(k *boxKernel) {
 		layer2StatusFetchFunc: l2.A.GetStatus,
 	}
 	sb.lis = &k8s.Listener{ServiceChanged: sb.ctl.SetBalancer, ConfigChanged: sb.ctl.SetConfig, NodeChanged: sb.ctl.SetNode}
+}
+
+func (sb *sbox) boot(k *boxKernel) {
+	logger := log.NewNopLogger()
+	sb.build()
 	sb.reload = make(chan event.GenericEvent, 4096)
 	sb.processedAt = map[string]int{}
 	sb.lastFirstNodeEvent = 0
